@@ -16,8 +16,9 @@ every reachable state (`reach cfg evs`, any history: pull phase, login switch-ov
   messages among the first `k` frames are delivered (callback entered), in order, after what was delivered before.
 * `C04_drain_monotone`  — any continuation whatsoever (other tasks, timers, user calls, more reader ticks, more frames) that
   contains the schedule as a subsequence and leaves the session open: those messages have been delivered, in that order and
-  position (lower bound); with `C04_prefix_partial` (upper bound) the delivered sequence is sandwiched: `C04_drain_sandwich`.
-* `C04_callback_mode_loses_nothing` — while a session in callback mode stays open the list of dropped messages does not grow.
+  position (lower bound); with `C04_prefix` (upper bound) the delivered sequence is sandwiched: `C04_drain_sandwich`.
+* `C04_callback_mode_loses_nothing` — while a session in callback mode stays open the list of dropped messages does not grow
+  (since the repair of C04-late-cancel-loses-message that list is empty in every reachable state anyway: `C04.C04_nothing_lost`).
 * `C04_drain_pull`      — pull mode: `k` reader ticks queue the messages, as many `receive_msg_nowait()` calls return them in order.
 
 The proofs go through an abstract pipeline (`Lemmas/SessionDrainPipe.lean`: potential-function argument, conservation), a
@@ -187,9 +188,10 @@ theorem C04_drain_monotone (cfg : Cfg) (evs evs' : List Ev) (k m : Nat) (hr : cb
   obtain ⟨h1, c', g'⟩ := drain_mono cfg evs evs' k m (cbLive_of hr) hopen hsub hm
   exact ⟨h1, cbReady_of c', g'⟩
 
-/-- **Callback mode drops nothing.** While a session in callback mode stays open, no message is lost to a late cancel (the known
-    finding of `Witness/C04.lean` needs a pending receive, and receives fail with `StateError` in callback mode): whatever happens,
-    the list of dropped messages does not grow. -/
+/-- **Callback mode drops nothing.** While a session in callback mode stays open, no message is lost (the late cancel of
+    `Witness/C04Late.lean` needs a pending receive, and receives fail with `StateError` in callback mode): whatever happens,
+    the list of dropped messages does not grow.  (Proved before the repair of C04-late-cancel-loses-message; now also a
+    consequence of `C04.C04_nothing_lost`.) -/
 theorem C04_callback_mode_loses_nothing (cfg : Cfg) (evs evs' : List Ev) (hr : cbReady (reach cfg evs) = true)
     (hopen : (reach cfg (evs ++ evs')).closed = false) :
     (reach cfg (evs ++ evs')).lost = (reach cfg evs).lost ∧ cbReady (reach cfg (evs ++ evs')) = true := by
@@ -197,17 +199,59 @@ theorem C04_callback_mode_loses_nothing (cfg : Cfg) (evs evs' : List Ev) (hr : c
   obtain ⟨c', _, g'⟩ := sim_run_open cfg evs' evs (cbLive_of hr) hopen
   exact ⟨g', cbReady_of c'⟩
 
-/-- **Sandwich**: lower bound from `C04_drain_monotone`, upper bound from `C04_prefix_partial` — if nothing had been dropped by
-    a late cancel before callback mode (the pull phase), then after such a continuation the delivered sequence starts with
-    everything that was owed and is a prefix of what the wire carried. -/
+/-- **Sandwich**: lower bound from `C04_drain_monotone`, upper bound from `C04_prefix` — after such a continuation the delivered
+    sequence starts with everything that was owed and is a prefix of what the wire carried (no hypothesis about the pull phase
+    any more: a late cancel there loses nothing). -/
 theorem C04_drain_sandwich (cfg : Cfg) (evs evs' : List Ev) (k m : Nat) (hr : cbReady (reach cfg evs) = true)
     (hopen : (reach cfg (evs ++ evs')).closed = false) (hsub : (sched k m).Sublist evs')
-    (hm : drainCost cfg (reach cfg evs) k ≤ m) (hl : (reach cfg evs).lost = []) :
+    (hm : drainCost cfg (reach cfg evs) k ≤ m) :
     delivered (reach cfg evs).trace ++ (reach cfg evs).queue ++ msgsOf ((reach cfg evs).buf.take k)
       <+: delivered (reach cfg (evs ++ evs')).trace ∧
     delivered (reach cfg (evs ++ evs')).trace <+: msgsOf (reach cfg (evs ++ evs')).wire := by
-  obtain ⟨h1, _, h3⟩ := C04_drain_monotone cfg evs evs' k m hr hopen hsub hm
-  exact ⟨h1, C04.C04_prefix_partial cfg (evs ++ evs') (by rw [h3]; exact hl)⟩
+  obtain ⟨h1, _, _⟩ := C04_drain_monotone cfg evs evs' k m hr hopen hsub hm
+  exact ⟨h1, C04.C04_prefix cfg (evs ++ evs')⟩
+
+/-- **The next blocking receive after a cancelled receive.** On an open pull-mode session, after the cancellation of
+    `receive_msg()` was delivered to user task `u` (early or late, `C04.C04_cancelled_receive_consumes_nothing`), a fresh
+    `receive_msg()` returns the first undelivered message at once: the helper task of the cancelled receive has ended
+    (`stash_no_getter`), no receive is pending, and the message the cancelled receive held is back in front of the queue. -/
+theorem C04_receive_after_cancelled_receive (cfg : Cfg) (evs : List Ev) (u u' n : Nat) (q : List Nat)
+    (hopen : (reach cfg evs).closed = false)
+    (hst : (reach cfg evs).status (.U u) = .cancelled) (hp : (reach cfg evs).prog (.U u) = .recvWait u)
+    (hq : (reach cfg evs).vres.toList ++ (reach cfg evs).queue = n :: q)
+    (hd : (reach cfg evs).dispSet = false) (hu : (reach cfg evs).status (.U u') = .absent) :
+    (reach cfg (evs ++ [.run (.U u), .callRecv u', .run (.U u')])).trace =
+      (reach cfg evs).trace ++ [.ret u (if (reach cfg evs).qClosed then .eoq else .cancelled), .ret u' (.msg n)] ∧
+    (reach cfg (evs ++ [.run (.U u), .callRecv u', .run (.U u')])).queue = q := by
+  obtain ⟨_, hV⟩ := stash_no_getter cfg evs u hopen hst (Or.inr hp)
+  obtain ⟨ht, _, hv, hb, hqu, _, _⟩ := C04.C04_cancelled_receive_consumes_nothing cfg evs u hst hp
+  have e1 : C04.reach cfg (evs ++ [.run (.U u)]) = step cfg (reach cfg evs) (.run (.U u)) := C04.reach_snoc cfg evs _
+  have huu : u' ≠ u := by intro e; subst e; rw [hst] at hu; cases hu
+  generalize hs' : C04.reach cfg (evs ++ [.run (.U u)]) = s' at ht hv hb hqu e1
+  have key : ∃ (x : St) (o : Obs), s' = (x.emit o).finish (.U u) ∧ x.status = (reach cfg evs).status ∧
+      x.dispSet = (reach cfg evs).dispSet := by
+    rw [e1]
+    cases hqc : (reach cfg evs).qClosed
+    · exact ⟨({ reach cfg evs with imm := none, vres := none, rcvBusy := false, queue := (reach cfg evs).vres.toList ++ (reach cfg evs).queue } : St),
+        .ret u .cancelled, by simp [step, runnable, hst, stepRun, hp, hqc], rfl, rfl⟩
+    · exact ⟨({ reach cfg evs with imm := none, vres := none, rcvBusy := false, queue := (reach cfg evs).vres.toList ++ (reach cfg evs).queue } : St),
+        .ret u .eoq, by simp [step, runnable, hst, stepRun, hp, hqc], rfl, rfl⟩
+  obtain ⟨x, o, hx, hxs, hxd⟩ := key
+  have hV' : alive (s'.status .V) = false := by
+    rw [hx]; exact dead_finish (s := x.emit o) _ (by show alive (x.status .V) = false; rw [hxs]; exact hV)
+  have hd' : s'.dispSet = false := by
+    rw [hx]; show x.dispSet = false; rw [hxd]; exact hd
+  have hu' : s'.status (.U u') = .absent := by
+    have hne : Tid.U u' ≠ Tid.U u := by intro e; injection e with e; exact huu e
+    rw [hx, finish_status]
+    show (if Tid.U u' = Tid.U u then Status.done else if x.status (.U u') = .waitT (.U u) then .ready else x.status (.U u')) = _
+    rw [hxs]; simp [hne, hu]
+  have e3 : reach cfg (evs ++ [.run (.U u), .callRecv u', .run (.U u')]) =
+      step cfg (step cfg s' (.callRecv u')) (.run (.U u')) := by
+    rw [← hs']; simp [reach, C04.reach, runEvs, List.foldl_append]
+  rw [e3]
+  obtain ⟨r1, r2, _⟩ := C04.C04_receive_returns_head cfg s' u' n q hb hv hV' hd' hu' (by rw [hqu]; exact hq)
+  exact ⟨by rw [r1, ht]; simp, r2⟩
 
 /-! ### 3. pull mode -/
 
